@@ -137,5 +137,5 @@ Fixpoint check_txs (os : list txobs) (es : list rawobs) : bool :=
 (* (uuid counter before, history, observations of one engine) *)
 Definition check_case (c : Z * list (list cmd) * list rawobs) : bool :=
   let '(n0, h, es) := c in
-  check_txs (snd (run_hist h (mkP [] n0))) es.
+  check_txs (snd (run_hist h (init_pstate n0))) es.
 
